@@ -624,6 +624,7 @@ def run(an: Analysis, rep):
     from .common import assert_guard_rule as _agr9
     rep.run(_agr9, an, rep, "R09.A", ["from_code"])
     rep.run(table_sequences_rule, an, rep)
+    rep.run(negative_index_rule, an, rep)
     f, ifst, assign, mapattr, idx = find_rank_site(an)
     self_ = f.params[0]
     rank = assign.value
@@ -796,3 +797,28 @@ def run(an: Analysis, rep):
                     f"additional {ci.name} entries come from {sorted(x[1] for x in oa)} but instruction operands of that class from {sorted(x[1] for x in oi)}",
                     config=vname(V))
     rep.stats.update(an.stats(interps))
+
+
+def negative_index_rule(an: Analysis, rep, rule="R09.7"):
+    """An operand that wrapped around to a negative number (three EXTENDED_ARG prefixes with the top bit set, hand-written bytecode) is not an
+    index into a table: Python would count it from the end, the data would hold an entry pinned at -1 and to_code() could not build the table."""
+    from sa.feval import BlockOutcome
+    from .c03 import package_evaluator as _pe
+    ci, rank, unref = find_decoder_table(an)
+    methods = {m.name: m.node for m in ci.methods.values() if isinstance(m.node, ast.FunctionDef)}
+    bad = []
+    for idx in (-1, -3):
+        ev, _r = _pe(an, ci.module, (3, 10))
+        ev.methods = methods
+        try:
+            obj = ev.lib[ci.name](("a", "b", "c"))
+            got = ev.call_method(rank.node, obj, idx)
+            bad.append(f"`{rank.name}({idx})` on a table of three entries returns {got!r}")
+        except BlockOutcome:
+            pass
+        except Exception as ex:  # noqa: BLE001 - a gap of the evaluator, never a verdict
+            raise AnalysisError(f"{rank.qual}: not evaluable on a negative index ({type(ex).__name__}: {ex})")
+    rep.add(rule, f"{rank.qual}::a negative index is refused", not bad, loc(rank.module, rank.node),
+            "indices -1 and -3 raise" if not bad else
+            bad[0] + ": an operand that wrapped around to a negative number is counted from the end of the table - from_code returns an entry pinned at a negative position, "
+            "and to_code() of that data raises ('the indices leave gaps')")
